@@ -26,6 +26,7 @@ def catalogue():
         rhs = 'obj.x'
         out.append(('read/augmented-assignment-to-another-variable %s=' % op, 'y %s= %s' % (op, rhs)))
         out.append(('write/augmented-assignment-to-the-attribute %s=' % op, 'obj.x %s= 1' % op))
+        out.append(('write/augmented-assignment-whose-right-side-reads-the-attribute %s=' % op, 'obj.x %s= obj.x' % op))
     out.append(('read/operator-inside-a-trailing-comment', 'y = obj.x  # later: obj.x += 1'))
     out.append(('read/operator-inside-a-string-literal', 'y = str("then obj.x += 1") + str(obj.x)'))
     out.append(('lock-request', '_, _lock = obj.x'))
@@ -71,9 +72,9 @@ def run(sc):
         if err:
             return False, 'statement %r raised %s' % (sc['statement'], err), 'forms/' + sc['form']
         if not got or not got[0]:
-            # give the lock back so that later scenarios are not affected
+            key = 'augassign-rhs-read' if 'whose-right-side-reads' in sc['form'] else 'forms/' + sc['form']
             return False, 'after %r the calling thread still holds the attribute lock: no other thread can use the ' \
-                          'attribute' % sc['statement'], 'forms/' + sc['form']
+                          'attribute' % sc['statement'], key
         return True, ''
     finally:
         try:
